@@ -65,6 +65,22 @@ runs['evmaria-StripChecksum'] = {'func': 'mariadbBinlogEvent.StripChecksum'}
 for f in ['readLenEncInt', 'metadataRead', 'newBitmap', 'Bitmap.Count', 'Bitmap.Bit', 'Bitmap.BitCount']:
     runs['rbr-' + f] = {'func': f}
 
+# ---- ROWS_EVENT body (C09) ----
+# One unit per event type (case functions vc_case_Rows_t<code>; exhaustive under requires: obligation case-cover).
+# The in-bounds preconditions of the callees inside the row loop (every NULL bitmap and every cell lies inside the
+# buffer: the body is well formed) are assumed in this unit, not decided: excluded by name, listed in the evidence.
+ROWS_CASES = ['t23', 't24', 't25', 't30', 't31', 't32']
+for t in ROWS_CASES:
+    runs['rows-' + t] = {'func': 'binlogEvent.Rows', 'case': 'vc_case_Rows_' + t, 'opaque': 'specCellLen,specCellOK,specCellText',
+                         'exclude': ['call-pre:newBitmap@loop', 'call-pre:cellLength@loop'], 'skip_excluded': True, 'timeout': 60, 'jobs': 3, 'wall': 1500, 'min_obligations': 60}
+# UPDATE rows events carry two images per row; the per-row image clause does not discharge within the time limit for
+# them (two chained position functions): not decided for these two types, everything else of the unit is
+for t in ('t24', 't31'):
+    runs['rows-' + t]['exclude'] = runs['rows-' + t]['exclude'] + ['inv-step:loop1:rows']
+runs['rows-t23']['covers'] = ','.join('vc_case_Rows_' + t for t in ROWS_CASES)
+ROWS_RUNS = ['rows-' + t for t in ROWS_CASES]
+ROWS_ASSUME = ["Rows(): every NULL bitmap and every cell of a row lies inside the event body (the preconditions of newBitmap and cellLength at the calls inside the row loop are assumed, i.e. the body is well formed); the two header bitmaps and the column count are in bounds by the unit's precondition"]
+
 PARSER_OBS = ("binlogEvent_Format,binlogEvent_Rotate,binlogEvent_Query,binlogEvent_TableMap,binlogEvent_Rows,binlogEvent_TableID,"
               "GetStatementCategory,appendInsertEventFromRows,appendUpdateEventFromRows,appendDeleteEventFromRows,newError,Error_msgf,"
               "Streamer_binlogPosition,StatementType_String,NewMysqlTableName")
@@ -147,14 +163,14 @@ props['C13'] = {
 }
 props['C09'] = {
     'level': 'proof',
-    'claim': "Length agreement lemma: for every supported type and its full valid metadata domain and every data/pos, the real cellLength and the real CellBytes both return exactly specCellLen (the documented per-type length rule), hence agree with each other on the size of every cell; both are panic-free when the cell lies inside the buffer.",
-    'note': "Trusted: govc, solvers. The row loop of Rows() and the column loops are separate units.",
+    'claim': "(1) Length agreement lemma: for every supported type and its full valid metadata domain and every data/pos, the real cellLength and the real CellBytes both return exactly specCellLen (the documented per-type length rule, never negative, never past the buffer), hence agree with each other on the size of every cell. (2) Rows(): for each of the six rows-event types (one unit each, exhaustive by obligation case-cover) the flags, column count and columns-present bitmaps are the documented header fields; the NULL bitmaps are as wide as the number of present columns (population count, proved through BitCount's contract); for WRITE and DELETE rows events (v1, v2) every row's image is exactly the window of the body from behind its NULL bitmap to the end of the last present non-NULL cell as the length rule gives it, rows follow each other without gap and the last one ends with the body (ghost accumulation per row, inner loops by invariant). (3) The row converters consume an image exactly as far as the same rule says.",
+    'note': "Trusted: govc, solvers. Not decided: for UPDATE rows events (two images per row) the per-row image clause (inv-step:loop1:rows) does not discharge within the time limit and is excluded for t24 / t31 — header, bitmap widths, inner-loop invariants and safety are decided for them too. Assumed in the Rows units: every NULL bitmap and every cell lies inside the body (preconditions of newBitmap / cellLength inside the row loop, excluded by name and reported as assumed). The link 'Rows() output satisfies the precondition specImageOK of the row converters' additionally needs that the length rule only looks at the bytes from the cell's position on (translation invariance of specCellLen), which is by inspection of the rule, not machine-checked.",
     'technique': GEN,
     'runs': [{'use': 'len-' + n} for n in TYPES] + cell([n for n in TYPES if n not in ('json', 'newdecimal')], include=['ensures:len'] + SAFE)
-            + ['rbr-readLenEncInt', 'rbr-newBitmap', 'rbr-Bitmap.Count', 'rbr-Bitmap.Bit', 'rbr-Bitmap.BitCount',
+            + ROWS_RUNS + ['rbr-readLenEncInt', 'rbr-newBitmap', 'rbr-Bitmap.Count', 'rbr-Bitmap.Bit', 'rbr-Bitmap.BitCount',
                {'use': 'row-values', 'include': ['ensures:consumed', 'inv-.*', 'call-pre:.*', 'safe:.*']},
                {'use': 'row-identifies', 'include': ['ensures:consumed', 'inv-.*', 'call-pre:.*', 'safe:.*']}],
-    'assumptions': ROW_ASSUME,
+    'assumptions': ROW_ASSUME + ROWS_ASSUME,
 }
 props['C08'] = {
     'level': 'proof',
